@@ -81,8 +81,10 @@ pub fn check_one(s: &str, mode: u8) -> Result<Vec<Item>, String> {
         parse(s.as_bytes(), 0, html, checks)
     };
     // sibling entry point: BytesStart::try_get_attribute(name) is documented as the first attribute of
-    // that name in an iteration without duplicate checks, or the first error met before it
-    if tagged && !html {
+    // that name in an iteration without duplicate checks (None if there is none)
+    if tagged && !html && parse(format!("t{}", s).as_bytes(), 1, false, false).iter().all(|i| matches!(i, Item::Attr { .. })) {
+        // (only on attribute areas that iterate without an error: what the lookup does in front of an error is
+        // not stated anywhere)
         let content = format!("t{}", s);
         let plain = parse(content.as_bytes(), 1, false, false);
         let e = BytesStart::from_content(content.as_str(), 1);
